@@ -283,6 +283,8 @@ class Gen:
                 value = ["n", r.choice(NAMED + ["largest", "posinf", "neginf"] + (["nan", "undefined"] if r.random() < 0.03 else []))]
             else:
                 value = self.num_value(ty)
+        if ty == "i" and value[0] == "f":
+            value = ["i", int(W.float_of_bits(int(value[2], 16), value[1]))]      # integer-typed constants hold ints
         like = self.sym(ty)
         if r.random() < 0.08 and self.budget > 3:
             like = self.num(2, ty)
@@ -725,8 +727,11 @@ def gen_value(rng, tag, allow_inf):
         q = Fraction(rng.choice([1, -1])) * Fraction(2) ** rng.choice([emax, emax - 1, 8, 5])
     elif c < 0.56 and allow_inf:
         return None, rng.choice([float("inf"), -float("inf")])
-    elif c < 0.75:
+    elif c < 0.70:
         q = Fraction(rng.randint(-16, 16), rng.choice([1, 2, 4, 8]))
+    elif c < 0.84:
+        # full significand: not representable in any narrower format
+        q = Fraction(rng.choice([1, -1]) * rng.randint(1 << (p - 1), (1 << p) - 1), 1 << (p - 1 + rng.choice([0, 1, 3])))
     else:
         q = Fraction(rng.randint(-(1 << min(p, 20)), 1 << min(p, 20)), 1 << rng.choice([0, 3, 10, 18]))
     return q, float(q)
@@ -872,6 +877,8 @@ def correspondence(ctx, tline, specs, kinds, label, broken_out):
 
 
 def save_corpus(prefix, spec):
+    if os.path.realpath(REPO) != "/repo":
+        return "(not stored: FAV_REPO experiment)"
     d = os.path.join(ROOT, "corpus", "C04")
     os.makedirs(d, exist_ok=True)
     blob = json.dumps(dict(spec=W.share(spec)), sort_keys=True)
@@ -905,6 +912,10 @@ def report_search(ctx, spec, res, broken_item=None, origin="generated"):
         return 0
     sigs = res.get("signatures") or [f.get("signature", "value:unclassified") for f in res["fails"]]
     for sig in dict.fromkeys(sigs):
+        if sig.startswith("value:") and sum(1 for v in ctx.violations if v["signature"].startswith("value:")) >= 6 and \
+                sig not in [v["signature"] for v in ctx.violations]:
+            ctx.count("search:further-unclassified-value-failures(not reported separately)")
+            continue
         what = f"{origin}: rewriting changes the value / raises on the real rewriter: {sig}; first failure {json.dumps(res['fails'][0])[:600]}"
         ctx.violation(sig, what, dict(spec=W.share(spec), fails=res["fails"][:3], minimal=res.get("minimal")), broken_item=broken_item)
         n += 1
@@ -966,6 +977,7 @@ DIRECTED = [
     ("largest(f32) == largest(f64)", lambda: ["eq", ["const", ["n", "largest"], sym_spec("x", "f32")], ["const", ["n", "largest"], sym_spec("y", "f64")]]),
     ("atan2(0.0 - (x - x), -1)", lambda: ["atan2", ["subtract", ["const", vfloat(0.0, "py"), sym_spec("x", "f32")], ["subtract", sym_spec("x", "f32"), sym_spec("x", "f32")]],
                                           ["const", ["i", -1], sym_spec("x", "f32")]]),
+    ("0 == smallest/posinf", lambda: ["eq", ["const", ["i", 0], sym_spec("x", "f32")], ["divide", ["const", ["n", "smallest"], sym_spec("x", "f32")], ["const", ["n", "posinf"], sym_spec("x", "f32")]]]),
     ("-abs(a) < abs(b)", lambda: ["lt", ["negative", ["absolute", sym_spec("a", "f32")]], ["absolute", sym_spec("b", "f32")]]),
     ("abs(a) <= -abs(b)", lambda: ["le", ["absolute", sym_spec("a", "f64")], ["negative", ["absolute", sym_spec("b", "f64")]]]),
     ("select(-abs(a) == abs(b), a, b)", lambda: ["select", ["eq", ["negative", ["absolute", sym_spec("a", "f32")]], ["absolute", sym_spec("b", "f32")]], sym_spec("a", "f32"), sym_spec("b", "f32")]),
@@ -1003,6 +1015,11 @@ def run(ctx):
     for key, (spec, r) in rows_failing.items():
         v = verdicts[key]
         report_search(ctx, spec, r, broken_item=row_items.get(key) or fallback_item, origin=f"table row {v['keys']}")
+        if not v["known"]:
+            # the Lean obligations that name this row (and the table theorem) now have their failing input
+            for b in lean_broken:
+                if v["theorem"] in b["name"] or "tables_sound" in b["name"]:
+                    b["has_failing_input"] = True
     ctx.notes["table_rows_failing_on_real_code"] = sorted(f"{k[0]}:({k[1][1:]},{k[2][1:]})" for k in rows_failing)
     dspecs = [mk() for _, mk in DIRECTED]
     dres = run_jobs("search", dspecs, extra=[gen_assignments(ctx.rng, s, 10) + boundary_assignments(s) for s in dspecs])
@@ -1023,7 +1040,7 @@ def run(ctx):
     corpus = load_corpus()
     if corpus:
         correspondence(ctx, tline, [c[1] for c in corpus], ["corpus"] * len(corpus), "corpus", broken_out)
-    n_total = ctx.scale(21000, 400000)
+    n_total = ctx.scale(21000, 250000)
     batch = 3000
     w_fold = 0.25
     done = 0
@@ -1119,7 +1136,7 @@ def run(ctx):
     # ---- search: the property's clauses on the real rewriter, independent of the model
     gs = Gen(ctx.rng, mix_py=False)
     sspecs = []
-    n_search = ctx.scale(4500, 60000)
+    n_search = ctx.scale(4500, 40000)
     while len(sspecs) < n_search:
         s, k = gs.expression()
         sspecs.append(s)
@@ -1150,6 +1167,14 @@ def run(ctx):
             continue
         r = W.search_case_full(spec, gen_assignments(ctx.rng, spec, 12) + boundary_assignments(spec))
         report_search(ctx, spec, r, broken_item=item, origin="expression of a correspondence mismatch")
+    if ctx.violations:
+        # the search found inputs on which the real rewriter violates the property: they are the failing inputs of the
+        # obligations that broke in this run (a mismatch on a shipped graph or on an expression the evaluators cannot
+        # handle has no replay of its own)
+        for item, _ in broken_out:
+            item["has_failing_input"] = True
+        for b in lean_broken:
+            b["has_failing_input"] = True
     ctx.notes["wall_s_c04"] = round(time.time() - t0, 1)
 
 
